@@ -51,6 +51,25 @@ def _(E, m, a, c0):
 @pattern(r'<(?:std::rc::)?Rc<dyn .*> as From<Box<dyn .*>>>::from|<(?:std::rc::)?Rc<.*> as From<Box<.*>>>::from')
 def _(E, m, a, c0): return RcV(RcObj(a[0].cell.v))
 
+# ------------------------------------------------------------------ BigInt (op) primitive integer, either order
+_PRIM = r'(?:u8|u16|u32|u64|usize|i8|i16|i32|i64|isize|u128|i128)'
+@pattern(r'<&?(?:BigInt|' + _PRIM + r') as (Add|Sub|Mul|Div|Rem)<&?(?:BigInt|' + _PRIM + r')>>::\w+')
+def _(E, m, a, c0):
+    if 'BigInt' not in c0: return NotImplemented
+    x, y = E.deref(a[0]), E.deref(a[1]); op = m.group(1)
+    if op in ('Div', 'Rem'):
+        if E.branch(y == 0): raise Abort('BigInt division by zero')
+        return tdiv(x, y) if op == 'Div' else trem(x, y)
+    return {'Add': x + y, 'Sub': x - y, 'Mul': x * y}[op]
+@pattern(r'<BigInt as (AddAssign|SubAssign|MulAssign|DivAssign|RemAssign)<&?(?:BigInt|' + _PRIM + r')>>::\w+')
+def _(E, m, a, c0):
+    x, y = E.deref(a[0]), E.deref(a[1]); op = m.group(1)[:3]
+    if op in ('Div', 'Rem'):
+        if E.branch(y == 0): raise Abort('BigInt division by zero')
+        r = tdiv(x, y) if op == 'Div' else trem(x, y)
+    else: r = {'Add': x + y, 'Sub': x - y, 'Mul': x * y}[op]
+    E.wr(a[0], r); return UNIT
+
 # ------------------------------------------------------------------ String as a byte sequence (concrete ASCII only: anything else is not encodable)
 def _ascii(E, v):
     out = []
